@@ -94,9 +94,19 @@ def execute(row, seed, policy=None):
             kw['handle_exit'] = bad_exit
         c = run.make_connection(allowed_versions={VERSION}, **kw)
         if origin in ('early', 'listener'):
+            from minecraft.networking.packets import serverbound
+            with_pending = seed % 3 == 0        # the failing listener had queued a packet that an outgoing listener dislikes
+
             def boom(pkt):
+                if with_pending:
+                    c.write_packet(serverbound.play.ChatPacket(message='last words'))
                 raise OrigError('listener failure')
             c.register_packet_listener(boom, clientbound.play.KeepAlivePacket, early=(origin == 'early'))
+            if with_pending:
+                def out_boom(pkt):
+                    obs['out_listener_called'] = True
+                    raise RuntimeError('outgoing listener rejects the packet')
+                c.register_packet_listener(out_boom, serverbound.play.ChatPacket, outgoing=True, early=bool(seed % 2))
         for i, h in enumerate(row['handlers'], 1):
             types = {'all': (), 'orig': (orig_cls,), 'repl': (ReplError,), 'none': (KeyError,)}[h['f']]
 
